@@ -410,14 +410,18 @@ def runContent (env : Env σ) (s : Sess σ) (cid : Nat) : Sess σ :=
   if cid = 0 then s else
   s.absorb (env.exec s.dm s.cfg cid)
 
+/-- the value recorded for history state `hid` of the exited state `sid`: the active atomic
+    descendants of `sid` (deep) or its active children (shallow), in configuration order -/
+def histVal (d : Doc) (cfg : List Nat) (sid hid : Nat) : List Nat :=
+  if (getState d hid).histType == 2 then
+    (cfg.filter (fun s0 => isAtomicStateId d s0 && isDescendant d s0 sid)).foldl oadd []
+  else
+    (cfg.filter (fun s0 => parentOf d s0 == sid)).foldl oadd []
+
 def historyRecord (d : Doc) (cfg : List Nat) (exitSorted : List Nat) : Table :=
-  -- `ahistory`, later `put_all` into historyValue (keys are distinct history states)
+  -- `ahistory`, later `put_all` into historyValue
   exitSorted.foldl (fun tbl sid =>
-    (getState d sid).history.foldl (fun tbl hid =>
-      if (getState d hid).histType == 2 then
-        tput tbl hid ((cfg.filter (fun s0 => isAtomicStateId d s0 && isDescendant d s0 sid)).foldl oadd [])
-      else
-        tput tbl hid ((cfg.filter (fun s0 => parentOf d s0 == sid)).foldl oadd [])) tbl) []
+    (getState d sid).history.foldl (fun tbl hid => tput tbl hid (histVal d cfg sid hid)) tbl) []
 
 /-- `cancelInvoke`: forget the child session and tell the platform to cancel it -/
 def cancelOne (s : Sess σ) (c : Child) : Sess σ :=
